@@ -1,6 +1,7 @@
 (* C13 — slashing/jailing and admin operations compose safely. *)
 From stdpp Require Import gmap.
-Require Import Model.Base Model.Validate Model.State Model.Staking Model.Slashing Model.Poa proofs.L1More.
+Require Import Model.Base Model.Validate Model.State Model.Staking Model.Slashing Model.Poa Model.App.
+Require Import proofs.L1More proofs.Inv proofs.InvIdx proofs.InvPres proofs.InvMsgs proofs.InvHistory.
 
 (* admin operations aimed at a jailed validator fail cleanly (the transaction wrapper then restores the state) *)
 Theorem C13_set_power_on_jailed_fails : forall c val power unsafe v,
@@ -19,3 +20,13 @@ Proof. exact set_power_on_non_bonded. Qed.
 Theorem C13_remove_non_bonded_fails : forall c sender val v,
   vals (stk c) !! val = Some v -> v_status v <> Bonded -> exists e, msg_remove_validator c sender val = MErr e.
 Proof. exact remove_non_bonded. Qed.
+
+(* in every reachable state a jailed validator owns no power-index entry: whatever the admin did meanwhile,
+   x/staking's EndBlocker cannot bring it back into the set before it is unjailed *)
+Theorem C13_jailed_owns_no_index_entry : forall g bs id v p,
+  wf_genesis g ->
+  let s := stk (w_chain (run_world (init_world g) bs)) in
+  vals s !! id = Some v -> v_jailed v = true -> ~ In (p, id) (pidx s).
+Proof.
+  intros g bs id v p Hg s Hv Hj. destruct (reachable_CI g bs Hg) as [HS _]. eapply jailed_owns_nothing; eauto. apply HS.
+Qed.
